@@ -532,6 +532,21 @@ func runC08(p *core.Prog, r *core.Report, tier string) {
 				return true
 			}}.Find()
 			r.Check(w == nil && len(deferred) > 0, "C08.g", wbase+"|release-deferred", p.Pos(a.Pos()), "a successful Acquire is followed by a Release on every path to a return", "the semaphore is not released on some path after a successful Acquire (an early-returning worker keeps the permit, and the next submission waits for it)", p.WitnessText(w)...)
+			// (p) one worker holds one permit: the semaphore was created with the configured concurrency as its weight, so
+			// a worker that acquires more than 1 lowers the number of nodes that are offered the payload at the same time
+			weights := []ssa.Value{call.Call.Args[len(call.Call.Args)-1]}
+			for _, d := range deferred {
+				if cc, ok := d.(ssa.CallInstruction); ok && len(cc.Common().Args) > 0 {
+					weights = append(weights, cc.Common().Args[len(cc.Common().Args)-1])
+				}
+			}
+			one := true
+			for _, wv := range weights {
+				if !core.IsIntConst(wv, 1) {
+					one = false
+				}
+			}
+			r.Check(one, "C08.p", wbase+"|one-permit-per-worker", p.Pos(a.Pos()), "the worker acquires and releases exactly one permit", "the worker acquires or releases a weight other than the constant 1: with the semaphore sized to the configured concurrency, the workers no longer run side by side (a slow node delays the offer to every other node)")
 		}
 		// (h) classification helpers
 		for _, hc := range core.Calls(W, func(c *ssa.CallCommon) bool {
@@ -575,6 +590,44 @@ func runC08(p *core.Prog, r *core.Report, tier string) {
 			}
 			for ret, w := range bad {
 				r.Violate("C08.h", core.FnKey(h)+"|clears-only-under-server-test", p.Pos(ret.Pos()), "the classification helper can turn an error into success without a server-type test (any rejection would count as accepted)", p.WitnessText(w)...)
+			}
+			// (o) a reply that cannot be decoded is not an allowable reply: where a call inside the helper fails, the
+			// helper does not go on to return nil
+			ordinal := map[string]int{}
+			for _, ec := range core.Calls(h, func(c *ssa.CallCommon) bool {
+				sg := c.Signature()
+				return sg.Results().Len() > 0 && core.IsErrorType(sg.Results().At(sg.Results().Len()-1).Type())
+			}) {
+				ecall, ok := ec.(*ssa.Call)
+				if !ok {
+					continue
+				}
+				ordinal[core.CalleeName(ecall.Common())]++
+				okKey := fmt.Sprintf("%s|decode-failure-not-cleared|%s#%d", core.FnKey(h), core.CalleeName(ecall.Common()), ordinal[core.CalleeName(ecall.Common())])
+				var wit []ssa.Instruction
+				tested := false
+				for _, b := range h.Blocks {
+					iff, ok := b.Instrs[len(b.Instrs)-1].(*ssa.If)
+					if !ok {
+						continue
+					}
+					sn := core.ErrNilSucc(core.DecodeCond(ds, iff), ecall)
+					if sn < 0 {
+						continue
+					}
+					tested = true
+					w := core.PathQuery{Fn: h, StartEdge: &[2]*ssa.BasicBlock{b, b.Succs[1-sn]}, Target: func(in ssa.Instruction) bool {
+						rt, ok := in.(*ssa.Return)
+						return ok && len(rt.Results) == 1 && core.IsNilConst(rt.Results[0])
+					}}.Find()
+					if w != nil {
+						wit = w
+					}
+				}
+				if !tested {
+					continue
+				}
+				r.Check(wit == nil, "C08.o", okKey, p.Pos(ecall.Pos()), "after the call failed the helper cannot return nil", "the helper goes on after "+core.CalleeName(ecall.Common())+" failed and can return nil: a reply that could not be decoded (its failure list is empty) counts as accepted", p.WitnessText(wit)...)
 			}
 			// extract tolerated pairs for the evidence
 			core.EachInstr(h, func(in ssa.Instruction) {
